@@ -10,6 +10,7 @@ package main
 
 import (
 	"fmt"
+	"go/constant"
 	"go/token"
 	"sort"
 	"strings"
@@ -31,6 +32,8 @@ type Explorer struct {
 	Budget int
 	States int
 	Over   bool
+
+	startIdx int
 }
 
 type exState struct {
@@ -66,6 +69,14 @@ func condAtom(v ssa.Value) (ssa.Value, bool) {
 
 // Reach explores from the first instruction of start (or from function entry
 // when start is nil) and returns the first target instruction found.
+// ReachFrom explores from the instruction following `from`.
+func (e *Explorer) ReachFrom(from ssa.Instruction, target func(ssa.Instruction) bool, avoid func(ssa.Instruction) bool) ssa.Instruction {
+	e.Avoid = avoid
+	e.startIdx = instrIndex(from) + 1
+	defer func() { e.startIdx = 0 }()
+	return e.Reach(from.Block(), target)
+}
+
 func (e *Explorer) Reach(start *ssa.BasicBlock, target func(ssa.Instruction) bool) ssa.Instruction {
 	if e.Budget == 0 {
 		e.Budget = 200000
@@ -74,10 +85,14 @@ func (e *Explorer) Reach(start *ssa.BasicBlock, target func(ssa.Instruction) boo
 		start = e.Fn.Blocks[0]
 	}
 	defBlock := map[string]*ssa.BasicBlock{}
+	isPhiName := map[string]bool{}
 	for _, b := range e.Fn.Blocks {
 		for _, in := range b.Instrs {
 			if v, ok := in.(ssa.Value); ok {
 				defBlock[v.Name()] = b
+				if _, isPhi := in.(*ssa.Phi); isPhi {
+					isPhiName[v.Name()] = true
+				}
 			}
 		}
 	}
@@ -90,7 +105,11 @@ func (e *Explorer) Reach(start *ssa.BasicBlock, target func(ssa.Instruction) boo
 		facts := map[string]bool{}
 		for k, v := range st.facts {
 			if db, ok := defBlock[k]; ok && st.b.Dominates(db) {
-				continue
+				// keep the phis of this very block: they were just resolved
+				// along the incoming edge
+				if !(db == st.b && isPhiName[k]) {
+					continue
+				}
 			}
 			facts[k] = v
 		}
@@ -105,7 +124,11 @@ func (e *Explorer) Reach(start *ssa.BasicBlock, target func(ssa.Instruction) boo
 			return nil
 		}
 		blocked := false
-		for _, in := range st.b.Instrs {
+		first := e.States == 1
+		for j, in := range st.b.Instrs {
+			if first && j < e.startIdx {
+				continue
+			}
 			if e.Avoid != nil && e.Avoid(in) {
 				blocked = true
 				break
@@ -132,7 +155,7 @@ func (e *Explorer) Reach(start *ssa.BasicBlock, target func(ssa.Instruction) boo
 								continue
 							}
 						}
-						work = append(work, exState{s, nf})
+						work = append(work, exState{s, phiFacts(st.b, s, nf)})
 						continue
 					}
 				}
@@ -164,8 +187,60 @@ func (e *Explorer) Reach(start *ssa.BasicBlock, target func(ssa.Instruction) boo
 					}
 				}
 			}
-			work = append(work, exState{s, nf})
+			work = append(work, exState{s, phiFacts(st.b, s, nf)})
 		}
 	}
 	return nil
+}
+
+// phiFacts resolves boolean phis of succ along the edge pred->succ: a constant
+// incoming value fixes the phi, an incoming value with a known fact is copied,
+// anything else clears a stale fact.
+func phiFacts(pred, succ *ssa.BasicBlock, facts map[string]bool) map[string]bool {
+	idx := -1
+	for i, p := range succ.Preds {
+		if p == pred {
+			idx = i
+		}
+	}
+	if idx < 0 {
+		return facts
+	}
+	var out map[string]bool
+	set := func(k string, v bool, del bool) {
+		if out == nil {
+			out = map[string]bool{}
+			for a, b := range facts {
+				out[a] = b
+			}
+		}
+		if del {
+			delete(out, k)
+		} else {
+			out[k] = v
+		}
+	}
+	for _, in := range succ.Instrs {
+		phi, ok := in.(*ssa.Phi)
+		if !ok {
+			break
+		}
+		e := phi.Edges[idx]
+		ev, neg := condAtom(e)
+		if c, ok := ev.(*ssa.Const); ok {
+			if c.Value != nil && c.Value.Kind() == constant.Bool {
+				set(phi.Name(), constant.BoolVal(c.Value) != neg, false)
+			}
+			continue
+		}
+		if v, has := facts[ev.Name()]; has {
+			set(phi.Name(), v != neg, false)
+		} else if _, had := facts[phi.Name()]; had {
+			set(phi.Name(), false, true)
+		}
+	}
+	if out == nil {
+		return facts
+	}
+	return out
 }
